@@ -28,6 +28,8 @@ type Case struct {
 	Ops  []Op   `json:"ops"`
 	// Variant carries the parameters of a relational check (C06, C15, C16)
 	Variant *Variant `json:"variant,omitempty"`
+	// Graph: a bare digraph for the cycle-search sub-check of C05
+	Graph *GraphCase `json:"graph,omitempty"`
 }
 
 type Variant struct {
@@ -187,6 +189,9 @@ func LoadCase(path string) (*Case, error) {
 // Short is a compact one-line rendering for evidence samples and messages.
 func (c *Case) Short() string {
 	var sb strings.Builder
+	if c.Graph != nil {
+		return fmt.Sprintf("digraph n=%d edges=%v", c.Graph.N, c.Graph.Edges)
+	}
 	fmt.Fprintf(&sb, "cfg{")
 	if c.Cfg.Defer {
 		sb.WriteString("defer ")
